@@ -10,6 +10,14 @@ Theorem C12_sends_after_stop_le_workers : forall c sched n os,
 Proof. exact sends_after_stop_le_workers. Qed.
 Print Assumptions C12_sends_after_stop_le_workers.
 
+(* After a stop request no new scenario is started beyond the one each worker may already be fetching:
+   at most n further operations are taken from the producer, whatever happened before (s1) and after (s2). *)
+Theorem C12_no_scenario_after_stop : forall c s1 s2 n os,
+  let a := step c (run c s1 (init n os)) Stop in
+  length (ops a) - length (ops (run c s2 a)) <= n.
+Proof. exact no_scenario_after_stop. Qed.
+Print Assumptions C12_no_scenario_after_stop.
+
 (* No more than max_failures failed or errored scenarios are reported, for all interleavings. *)
 Theorem C12_reported_failures_le_max : forall c m sched n os,
   maxf c = Some m -> 1 <= m -> failed_scenarios (trace (run c sched (init n os))) <= m.
